@@ -36,7 +36,7 @@ def run():
                             # single-channel walk: every channel index once the only enabled one; the transmission must use it
                             ["hist=2", "profile=onlych"] + ([] if t else ["fronts=nb,async"])],
         'transmission on an illegal channel / data rate / power',
-        "seeded random histories (9 regions x 4 (max power, gain) boards x join-bias settings) with CFLists, LinkADRReq, NewChannelReq, ADR back-off; every tx call's frequency, data rate and power is checked against Mac!TxChoices / MaxTxPower computed from the specification's own channel plan",
+        "single-channel walk (every channel index once the only enabled one, ascending and descending: the transmission must use it) plus seeded random histories (9 regions x 4 (max power, gain) boards x join-bias settings) with CFLists, LinkADRReq, NewChannelReq, ADR back-off; every tx call's frequency, data rate and power is checked against Mac!TxChoices / MaxTxPower computed from the specification's own channel plan",
         macfam.COMMON_ASSUMPTIONS, extra=[choice_stats])
 
 
